@@ -69,7 +69,8 @@ class PlanConverter:
         self.logger.debug("Extracting the grounded preconditions of the operator!")
         discrete_preconditions = set()
         numeric_preconditions = set()
-        for precondition in operator.grounded_preconditions:
+        # iterating the grounded preconditions yields (binary operator, condition) pairs.
+        for _, precondition in operator.grounded_preconditions:
             if isinstance(precondition, GroundedPredicate):
                 discrete_preconditions.add(precondition.untyped_representation)
 
